@@ -30,7 +30,7 @@ func TestC16Histories(t *testing.T) {
 		"query a range (ToUint32Mask/ToOfsBits/GetOfs/GetNbits). Oracle: a new match carries exactly the range's mask; a merge returns one field per register with the union mask; " +
 		"after every step each range still answers as when it was created and every field not handed to a merge still encodes to its original bytes. " +
 		"Non-trivial: a range object is used again after a merge that involved a field built from it; distinct by hash of the step list.")
-	rapid.Check(t, func(rt *rapid.T) {
+	checkRapid(t, c, func(rt *rapid.T) {
 		c.Eval()
 		type rng struct {
 			first, last int
